@@ -1,10 +1,108 @@
-/- Line-protocol handlers for C07 (placeholder until the property is built). -/
-import PandoraModel.Model.Basic
+/- Line-protocol handlers for C07 (cross-checking): model evaluation and spec evaluation. -/
+import PandoraModel.Model.CrossCheck
 
 namespace Pandora.Driver.C07
 open Lean (Json)
+open Pandora Pandora.CrossCheck
 
-def handle (op : String) (_j : Json) : Except String Json :=
-  throw s!"unknown op {op}"
+def paramsOfJson (j : Json) : Except String Params := do
+  let threshold ← field j "threshold" >>= ratOfJson
+  let dmin ← field j "dmin" >>= intOfJson
+  let dmax ← field j "dmax" >>= intOfJson
+  let offset ← field j "offset" >>= natOfJson
+  return { threshold, dmin, dmax, offset }
+
+def confToJson : Conf → Json
+  | .nan => Json.str "nan"
+  | .inf => Json.str "inf"
+  | .fin q => ratToJson q
+
+def confOfJson (j : Json) : Except String Conf :=
+  match j with
+  | Json.str "nan" => .ok .nan
+  | Json.null => .ok .nan
+  | Json.str "inf" => .ok .inf
+  | _ => (ratOfJson j).map Conf.fin
+
+def datasetOfJson (j : Json) (dk mk : String) : Except String Dataset := do
+  let disp ← field j dk >>= gridOfJson valOfJson
+  let mask ← match j.getObjVal? mk with
+    | .ok v => gridOfJson natOfJson v
+    | .error _ => pure (disp.map (·.map (fun _ => 0)))
+  if disp.length != mask.length then throw "row counts differ"
+  for (d, m) in List.zip disp mask do
+    if d.length != m.length then throw "column counts differ"
+  return { disp, mask }
+
+def variantOfJson (j : Json) : Except String Variant :=
+  match j.getObjVal? "variant" with
+  | .ok (Json.str "asis") => .ok .asIs
+  | .ok (Json.str "or") => .ok .orFix
+  | .ok (Json.str "rule") => .ok .ruleFix
+  | .ok v => .error s!"unknown variant {v.compress}"
+  | .error _ => .ok .asIs
+
+def outToJson (o : Out) : Json :=
+  mkObj [("disp", gridToJson valToJson o.disp), ("mask", gridToJson natToJson o.mask),
+         ("conf", gridToJson confToJson o.conf)]
+
+/-- `disparity_checking(A, B)` -/
+def checkOp (j : Json) : Except String Json := do
+  let P ← paramsOfJson j
+  let A ← datasetOfJson j "disp_a" "mask_a"
+  let B ← datasetOfJson j "disp_b" "mask_b"
+  let V ← variantOfJson j
+  if A.disp.length != B.disp.length then throw "the two maps have different row counts"
+  return outToJson (check V P A B)
+
+/-- `validation_run`: left against right, then right against the checked left -/
+def runOp (j : Json) : Except String Json := do
+  let PL ← field j "left" >>= paramsOfJson
+  let PR ← field j "right" >>= paramsOfJson
+  let L ← datasetOfJson (← field j "left") "disp" "mask"
+  let R ← datasetOfJson (← field j "right") "disp" "mask"
+  let V ← variantOfJson j
+  let (l, r) := validationRun V PL PR L R
+  return mkObj [("left", outToJson l), ("right", outToJson r)]
+
+/-- the specification on given outputs of `disparity_checking(A, B)` -/
+def specOp (j : Json) : Except String Json := do
+  let P ← paramsOfJson j
+  let A ← datasetOfJson j "disp_a" "mask_a"
+  let B ← datasetOfJson j "disp_b" "mask_b"
+  let om ← field j "out_mask" >>= gridOfJson natOfJson
+  let oc ← field j "out_conf" >>= gridOfJson confOfJson
+  let od ← field j "out_disp" >>= gridOfJson valOfJson
+  let nrow := A.disp.length
+  if om.length != nrow || oc.length != nrow || od.length != nrow || B.disp.length != nrow then throw "row counts differ"
+  let mut fails : Array Json := #[]
+  let mut sit : List (String × Nat) := []
+  let mut r := 0
+  for ((dL, mL), (dR, (mo, (co, dout)))) in List.zip (List.zip A.disp A.mask) (List.zip B.disp (List.zip om (List.zip oc od))) do
+    let ncol := dL.length
+    if mo.length != ncol || co.length != ncol || dout.length != ncol then throw "column counts differ"
+    for c in List.range ncol do
+      let flag := mL.getD c 0
+      let o : PixOut := { flag := mo.getD c 0, conf := co.getD c .nan }
+      let border := decide (P.offset > 0) && isBorder P.offset nrow ncol r c
+      let trig := triggerOf P border dL dR c flag
+      sit := match sit.find? (·.1 == trig) with
+        | some _ => sit.map fun (k, n) => if k == trig then (k, n + 1) else (k, n)
+        | none => sit ++ [(trig, 1)]
+      let mut f := failingPix P border dL dR c flag o
+      if dout.getD c .nan != dL.getD c .nan then f := f ++ ["disp_unchanged"]
+      if !f.isEmpty then
+        fails := fails.push (mkObj [("row", natToJson r), ("col", natToJson c),
+          ("clauses", listToJson Json.str f), ("trigger", Json.str trig)])
+    r := r + 1
+  return mkObj [("ok", Json.bool fails.isEmpty), ("failures", Json.arr fails),
+    ("situations", mkObj (sit.map fun (k, n) => (k, natToJson n)))]
+
+def handle (op : String) (j : Json) : Except String Json :=
+  match op with
+  | "C07.check" => checkOp j
+  | "C07.run" => runOp j
+  | "C07.spec" => specOp j
+  | _ => throw s!"unknown op {op}"
 
 end Pandora.Driver.C07
